@@ -59,6 +59,14 @@ add("C04", "model_checking",
     "explicit-state BFS over operation histories replayed on the real objects, differential oracle against a brand-new function",
     "DESIGN.md section 5 C04")
 
+add("C05", "model_checking",
+    "Explicit-state breadth-first search over register / unregister / call histories of a real Ovld and register / lookup histories "
+    "of the public MultiTypeMap, from every pre-registered subset (used and unused) of every enumerated method pool: every call "
+    "in every reachable state must equal the call on a brand-new object built from the surviving methods.",
+    "Trusted: 15-line model of the surviving method set; canonical state snapshot (tested by re-expansion).",
+    "explicit-state BFS over operation histories replayed on the real objects, differential oracle against a fresh build",
+    "DESIGN.md section 5 C05")
+
 ALL = [f"C{i:02d}" for i in range(1, 21)]
 REASON_PENDING = "check not built yet in this round (planned: DESIGN.md section 5); not claimed until its machinery exists"
 
